@@ -664,7 +664,15 @@ fn gen_chis(rng: &mut Rng, sim: &Sim, budget: usize) -> Vec<Vec<String>> {
     // dedupe, keep order; then cut to budget keeping the systematic ones first
     let mut seen = BTreeSet::new();
     out.retain(|v| seen.insert(v.join(",")));
-    out.truncate(budget.max(2));
+    let budget = budget.max(2);
+    if out.len() > budget {
+        // keep all-lost and all-kept, sample the rest (so that small budgets still rotate through
+        // the systematic tears over the crash points of a run)
+        let mut rest = out.split_off(2);
+        rng.shuffle(&mut rest);
+        rest.truncate(budget - 2);
+        out.extend(rest);
+    }
     out
 }
 
@@ -699,7 +707,11 @@ fn explore(rec: &mut Recorder, rng: &mut Rng, case: &Case, root: &Path, per_poin
                 continue;
             }
             rec.count("crash_points");
-            for chi in gen_chis(rng, &s, per_point) {
+            if near_root {
+                rec.count("crash_points:root_write_pending");
+            }
+            let budget = if near_root && per_point < 16 { per_point * 3 } else { per_point };
+            for chi in gen_chis(rng, &s, budget) {
                 let grow = rng.chance(1, 2);
                 let real = check_image(&mut cx, rec, &s, ci, k, &chi, grow, label);
                 let chi_s = if chi.is_empty() { "-".to_string() } else { chi.join(",") };
